@@ -669,7 +669,11 @@ impl Connection {
             let len = {
                 trace!("Attempting to read message length (4 bytes, distribution protocol)...");
                 let mut len_bytes = [0u8; 4];
-                tokio::time::timeout(timeout, read_half.read_exact(&mut len_bytes))
+                // Waiting for the next frame to begin is an idle wait, not a stalled
+                // transfer: a healthy peer only has to tick every net_ticktime/4 (15 s by
+                // default), so the I/O deadline applies once a frame has started.
+                read_half.read_exact(&mut len_bytes[..1]).await?;
+                tokio::time::timeout(timeout, read_half.read_exact(&mut len_bytes[1..]))
                     .await
                     .map_err(|_| Error::Timeout(timeout))??;
                 let len = u32::from_be_bytes(len_bytes);
